@@ -359,7 +359,7 @@ type quicClient struct {
 }
 
 func (v *vRouter) newQuicServer() *quicServer {
-	return &quicServer{r: v.r, idleTimeout: defaultQuicIdleTimeout, logger: v.r.subLoggerForServer("server_quic", "verif")}
+	return &quicServer{r: v.r, idleTimeout: min(defaultQuicIdleTimeout, seamIdle), logger: v.r.subLoggerForServer("server_quic", "verif")}
 }
 
 func vUDPAddr(ap netip.AddrPort) net.Addr { return net.UDPAddrFromAddrPort(ap) }
